@@ -1,4 +1,274 @@
-/- driver stub (Sync): replaced by the owner of this model group -/
+/-
+  drv_sync — driver of the sync model (C13, C14, C15).
+
+  input :  sync <strategy> <docsync> r0|r1 x <n> (S<name> T|F T|F T|F)*n
+                (lN | lS <k> S<id>*k) c0|c1 g0|g1 y0|y1 p0|p1 n<now>
+                (eP | eJ S<src id> S<dst id> <sp cid>) <src root node> <dst root node>
+           strategy : sN | sA | sV | sU | sC <k> S<path>*k
+           docsync  : dD | dK <u> (S<key> T|F)*u | dU | dN | dC
+           node     : f <cid> <size> <mtime> | j <cid> <size> <mtime> <value> | d <n> (S<name> node)*n
+  output:  <outcome>;<destination tree after the call>;log-ok   (log-ok: replaying the logged steps gives that tree)
+  A name / key that is not in the supplied tables and influences the answer gives `bad-value`.
+-/
+import Signac.Sync
 import Signac.Wire
-open Signac
-def main : IO Unit := driverLoop (fun _ => "bad-op")
+open Signac Signac.Sync
+
+namespace SyncDrv
+
+def hexName (t : String) : Option String :=
+  match t.toList with
+  | 'S' :: hx => unhex (String.ofList hx)
+  | _ => none
+
+def parseBool (t : String) : Option Bool :=
+  if t == "T" then some true else if t == "F" then some false else none
+
+def parseFlag (c : Char) (t : String) : Option Bool :=
+  match t.toList with
+  | [c', '0'] => if c = c' then some false else none
+  | [c', '1'] => if c = c' then some true else none
+  | _ => none
+
+mutual
+  def parseNode : Nat → List String → Option (Node × List String)
+    | 0, _ => none
+    | _, [] => none
+    | fuel+1, t :: ts =>
+      if t == "f" then
+        match ts with
+        | a :: b :: c :: rest => do
+          let a ← a.toNat?
+          let b ← b.toNat?
+          let c ← c.toNat?
+          pure (.file ⟨a, b, c, none⟩, rest)
+        | _ => none
+      else if t == "j" then
+        match ts with
+        | a :: b :: c :: rest => do
+          let a ← a.toNat?
+          let b ← b.toNat?
+          let c ← c.toNat?
+          let (v, rest') ← parseValue rest
+          match v with
+          | .obj _ => pure (.file ⟨a, b, c, some v⟩, rest')
+          | _ => none
+        | _ => none
+      else if t == "d" then
+        match ts with
+        | n :: rest => do
+          let n ← n.toNat?
+          let (es, rest') ← parseEntries fuel n rest
+          pure (.dir es, rest')
+        | _ => none
+      else none
+  def parseEntries : Nat → Nat → List String → Option (List (Name × Node) × List String)
+    | 0, _, _ => none
+    | _, 0, ts => some ([], ts)
+    | fuel+1, n+1, ts =>
+      match ts with
+      | [] => none
+      | k :: ts' => do
+        let name ← hexName k
+        let (c, rest) ← parseNode fuel ts'
+        let (es, rest') ← parseEntries fuel n rest
+        pure ((name, c) :: es, rest')
+end
+
+def parseNames : Nat → List String → Option (List String × List String)
+  | 0, ts => some ([], ts)
+  | n+1, t :: ts => do
+    let s ← hexName t
+    let (r, rest) ← parseNames n ts
+    pure (s :: r, rest)
+  | _, [] => none
+
+def parseKeyTable : Nat → List String → Option (List (String × Bool) × List String)
+  | 0, ts => some ([], ts)
+  | n+1, k :: b :: ts => do
+    let k ← hexName k
+    let b ← parseBool b
+    let (r, rest) ← parseKeyTable n ts
+    pure ((k, b) :: r, rest)
+  | _, _ => none
+
+def parseExclTable : Nat → List String → Option (List (String × Bool × Bool × Bool) × List String)
+  | 0, ts => some ([], ts)
+  | n+1, k :: a :: b :: c :: ts => do
+    let k ← hexName k
+    let a ← parseBool a
+    let b ← parseBool b
+    let c ← parseBool c
+    let (r, rest) ← parseExclTable n ts
+    pure ((k, a, b, c) :: r, rest)
+  | _, _ => none
+
+def tbl {α : Type} (t : List (String × α)) (k : String) : Option α :=
+  match t.find? (fun e => e.1 == k) with
+  | some e => some e.2
+  | none => none
+
+/-- everything but the tables, which are closed over with a default for missing entries -/
+structure Parsed where
+  strategy : Strategy
+  docKind : String
+  keyTbl : List (String × Bool)
+  recursive : Bool
+  exclTbl : List (String × Bool × Bool × Bool)
+  selection : Option (List String)
+  checkSchema : Bool
+  gate : Bool
+  dry : Bool
+  deep : Bool
+  now : Nat
+  entry : Entry
+  src : Entries
+  dst : Entries
+
+def parseLine (ts : List String) : Option Parsed := do
+  -- strategy
+  let (strategy, ts) ← (match ts with
+    | "sN" :: r => some (Strategy.none, r)
+    | "sA" :: r => some (Strategy.always, r)
+    | "sV" :: r => some (Strategy.never, r)
+    | "sU" :: r => some (Strategy.update, r)
+    | "sC" :: k :: r => do
+      let k ← k.toNat?
+      let (ps, r') ← parseNames k r
+      pure (Strategy.custom (fun p => ps.contains p), r')
+    | _ => none)
+  let (docKind, keyTbl, ts) ← (match ts with
+    | "dD" :: r => some ("D", [], r)
+    | "dU" :: r => some ("U", [], r)
+    | "dN" :: r => some ("N", [], r)
+    | "dC" :: r => some ("C", [], r)
+    | "dK" :: u :: r => do
+      let u ← u.toNat?
+      let (t, r') ← parseKeyTable u r
+      pure ("K", t, r')
+    | _ => none)
+  let (recursive, ts) ← (match ts with
+    | t :: r => (parseFlag 'r' t).map (·, r)
+    | _ => none)
+  let (exclTbl, ts) ← (match ts with
+    | "x" :: n :: r => do
+      let n ← n.toNat?
+      parseExclTable n r
+    | _ => none)
+  let (selection, ts) ← (match ts with
+    | "lN" :: r => some (none, r)
+    | "lS" :: k :: r => do
+      let k ← k.toNat?
+      let (ids, r') ← parseNames k r
+      pure (some ids, r')
+    | _ => none)
+  let (checkSchema, ts) ← (match ts with | t :: r => (parseFlag 'c' t).map (·, r) | _ => none)
+  let (gate, ts) ← (match ts with | t :: r => (parseFlag 'g' t).map (·, r) | _ => none)
+  let (dry, ts) ← (match ts with | t :: r => (parseFlag 'y' t).map (·, r) | _ => none)
+  let (deep, ts) ← (match ts with | t :: r => (parseFlag 'p' t).map (·, r) | _ => none)
+  let (now, ts) ← (match ts with
+    | t :: r => (match t.toList with
+      | 'n' :: ds => (String.ofList ds).toNat?.map (·, r)
+      | _ => none)
+    | _ => none)
+  let (entry, ts) ← (match ts with
+    | "eP" :: r => some (Entry.project, r)
+    | "eJ" :: a :: b :: c :: r => do
+      let a ← hexName a
+      let b ← hexName b
+      let c ← c.toNat?
+      pure (Entry.job a b c, r)
+    | _ => none)
+  let fuel := 2 * ts.length + 2
+  let (srcN, ts) ← parseNode fuel ts
+  let (dstN, ts) ← parseNode fuel ts
+  match srcN, dstN, ts with
+  | .dir s, .dir d, [] =>
+    pure ⟨strategy, docKind, keyTbl, recursive, exclTbl, selection, checkSchema, gate, dry, deep, now, entry, s, d⟩
+  | _, _, _ => none
+
+def mkOpts (p : Parsed) (dflt : Bool) : Opts :=
+  let ks : String → Bool := fun k => (tbl p.keyTbl k).getD dflt
+  { strategy := p.strategy
+    docSync := (if p.docKind == "D" then .byKey none
+                else if p.docKind == "K" then .byKey (some ks)
+                else if p.docKind == "U" then .update
+                else if p.docKind == "N" then .noSync
+                else .copy)
+    recursive := p.recursive
+    userExcl := fun n => ((tbl p.exclTbl n).map (·.1)).getD dflt
+    spPat := fun n => ((tbl p.exclTbl n).map (·.2.1)).getD dflt
+    docPat := fun n => ((tbl p.exclTbl n).map (·.2.2)).getD dflt
+    selection := p.selection
+    checkSchema := p.checkSchema
+    gate := p.gate
+    dry := p.dry
+    deep := p.deep
+    now := p.now }
+
+/-! rendering -/
+
+def insertSorted (x : String) : List String → List String
+  | [] => [x]
+  | y :: ys => if x < y then x :: y :: ys else if x = y then y :: ys else y :: insertSorted x ys
+
+def sortDedup (xs : List String) : List String := xs.foldl (fun acc x => insertSorted x acc) []
+
+def insertEntry (e : Name × Node) : List (Name × Node) → List (Name × Node)
+  | [] => [e]
+  | y :: ys => if e.1 < y.1 then e :: y :: ys else y :: insertEntry e ys
+
+mutual
+  def sortNode : Node → Node
+    | .file m => .file m
+    | .dir es => .dir (sortEs es)
+  def sortEs : List (Name × Node) → List (Name × Node)
+    | [] => []
+    | (n, c) :: tl => insertEntry (n, sortNode c) (sortEs tl)
+end
+
+mutual
+  def renderNode (path : String) : Node → List String
+    | .file m =>
+      match m.js with
+      | some v => [toHex path ++ "=j:" ++ ",".intercalate (wireVal (canon v))]
+      | none => [toHex path ++ "=f" ++ toString m.cid]
+    | .dir es => (toHex path ++ "=d") :: renderEs path es
+  def renderEs (path : String) : List (Name × Node) → List String
+    | [] => []
+    | (n, c) :: tl => renderNode (if path.isEmpty then n else path ++ "/" ++ n) c ++ renderEs path tl
+end
+
+def renderRoot (es : Entries) : String :=
+  " ".intercalate (renderEs "" (sortEs es))
+
+def renderErr : Option Err → String
+  | none => "ok"
+  | some (.fileConflict fn) => "FileSyncConflict:" ++ toHex fn
+  | some (.docConflict ks) => "DocumentSyncConflict:" ++ ",".intercalate ((sortDedup ks).map toHex)
+  | some .schemaConflict => "SchemaSyncConflict"
+  | some .typeError => "TypeError"
+  | some .backupExists => "RuntimeError"
+
+def answer (p : Parsed) (dflt : Bool) : String :=
+  let o := mkOpts p dflt
+  let r := run o p.entry ⟨p.src, p.dst⟩
+  -- the logged steps replayed on the initial destination must give the result (refinement)
+  let replay := applyAll p.dst r.log
+  renderErr r.err ++ ";" ++ renderRoot r.d ++ ";" ++
+    (if renderRoot replay == renderRoot r.d then "log-ok" else "log-mismatch")
+
+def step (line : String) : String :=
+  match tokens line with
+  | "sync" :: ts =>
+    match parseLine ts with
+    | some p =>
+      let a := answer p false
+      let b := answer p true
+      if a == b then a else "bad-value"
+    | none => "bad-value"
+  | _ => "bad-op"
+
+end SyncDrv
+
+def main : IO Unit := driverLoop SyncDrv.step
